@@ -1,8 +1,107 @@
-import BddVerif.Drive.Util
-/-! Driver for C04 — stub, to be written. -/
+import BddVerif.Drive.Tables
+import BddVerif.Model.Limit
+/-!
+Driver for C04: replays each observed fused operation through the model (`fusedBinaryFlipOp`,
+`fusedTernaryFlipOp`, panics included) and evaluates the property's own predicate on the implementation's
+output:
+  * truth table: `r(v) = g(v with the output-flip variable inverted)`, `g(u) = op` applied to each operand's
+    truth table at `u` with that operand's flip variable inverted (absent flip = identity) — computed on
+    truth-table indices by bit inversion, independently of the model;
+  * the observed result is canonical (`isCanon`);
+  * the observed fused result is identical to the observed result of the separately performed steps;
+  * a panic is observed exactly when the variable counts differ or some flip variable is `≥ num_vars`.
+-/
 namespace B.Drive.C04
 open B B.Drive
 
-def handle (key : String) (_ins _obs : List String) : Verdict := Verdict.bad ("key " ++ key)
+def maxTT : Nat := 12
+
+/-- bit mask on truth-table indices of the inversion of variable `x` (variable 0 = most significant bit) -/
+def flipMask (n : Nat) : Option Nat → Nat
+  | none => 0
+  | some x => if x < n then 1 <<< (n - 1 - x) else 0
+
+def showOut : Outcome Arr → String
+  | .ok a => showArr a
+  | .err _ => "err"
+  | .panic _ => "panic"
+
+def firstFail (xs : List (Option String)) : Option String := xs.findSome? id
+
+def flipTag (fs : List (Option Nat)) : String :=
+  let k := (fs.filter Option.isSome).length
+  let distinct := (fs.filterMap id).eraseDups.length
+  s!"flips{k}d{distinct}"
+
+def checkBin (n : Nat) (X L R : Arr) (c : Bool → Bool → Bool) (fl fr fo : Option Nat) : Option String :=
+  if n > maxTT then none else
+  let tx := ttOf X n; let tl := ttOf L n; let tr := ttOf R n
+  let mo := flipMask n fo; let ml := flipMask n fl; let mr := flipMask n fr
+  if (List.range (2 ^ n)).all fun i => tx[i]! == c tl[(i ^^^ mo) ^^^ ml]! tr[(i ^^^ mo) ^^^ mr]!
+  then none else some "bit-inversion"
+
+def checkTer (n : Nat) (X A B C : Arr) (c : Bool → Bool → Bool → Bool) (fa fb fc fo : Option Nat) : Option String :=
+  if n > maxTT then none else
+  let tx := ttOf X n; let ta := ttOf A n; let tb := ttOf B n; let tc := ttOf C n
+  let mo := flipMask n fo
+  if (List.range (2 ^ n)).all fun i =>
+    tx[i]! == c ta[(i ^^^ mo) ^^^ flipMask n fa]! tb[(i ^^^ mo) ^^^ flipMask n fb]! tc[(i ^^^ mo) ^^^ flipMask n fc]!
+  then none else some "bit-inversion"
+
+/-- does the operand mention variable `x`? -/
+def mentions (A : Arr) (f : Option Nat) : Bool :=
+  match f with
+  | none => false
+  | some x => (A.toList.drop 2).any (·.var == x)
+
+def handle (key : String) (ins obs : List String) : Verdict :=
+  match key, ins, obs with
+  | "C04.bin", [table, conn, l, r, fl, fr, fo], [fused, sep] =>
+    match conn.toNat?, parseArr? l, parseArr? r, parseOptNat? fl, parseOptNat? fr, parseOptNat? fo with
+    | some c, some L, some R, some fl, some fr, some fo =>
+      let n := numVars L
+      let op := op2OfTable table
+      if !consistent2 op c then Verdict.bad "inconsistent table (harness bug)" else
+      let model := showOut (fusedBinaryFlipOp L R op fl fr fo)
+      -- independent statement of when the Rust code must panic
+      let mustPanic := numVars R != n || [fl, fr, fo].any fun f => match f with | some x => x ≥ n | none => false
+      let fail :=
+        if mustPanic then
+          (if fused == "panic" && sep == "panic" then none else some "flip-bounds:panic-expected")
+        else match parseArr? fused, parseArr? sep with
+          | some X, some S => firstFail [checkBin n X L R (conn2 c) fl fr fo,
+              if isCanon X then none else some "not-canonical",
+              if X == S then none else some "fused-vs-separate"]
+          | _, _ => some ("flip-bounds:unexpected-outcome:" ++ fused ++ "/" ++ sep)
+      let unused := [(fl, L), (fr, R)].any (fun p => p.1.isSome && !mentions p.2 p.1) ||
+        (fo.isSome && !mentions L fo && !mentions R fo)
+      { agree := model == fused, model, fail,
+        nontrivial := !mustPanic && (parseArr? fused).any (·.size > 2) && [fl, fr, fo].any Option.isSome,
+        tags := ["bin", flipTag [fl, fr, fo], if mustPanic then "panic" else "ok", s!"n{n}"] ++
+          (if unused then ["flip-unused-var"] else []) }
+    | _, _, _, _, _, _ => Verdict.bad "args"
+  | "C04.ter", [table, conn, a, b, c, fa, fb, fc, fo], [fused, sep] =>
+    match conn.toNat?, parseArr? a, parseArr? b, parseArr? c,
+        parseOptNat? fa, parseOptNat? fb, parseOptNat? fc, parseOptNat? fo with
+    | some cn, some A, some B, some C, some fa, some fb, some fc, some fo =>
+      let n := numVars A
+      let op := op3OfTable table
+      if !consistent3 op cn then Verdict.bad "inconsistent table (harness bug)" else
+      let model := showOut (fusedTernaryFlipOp A B C op fa fb fc fo)
+      let mustPanic := numVars B != n || numVars C != n ||
+        [fa, fb, fc, fo].any fun f => match f with | some x => x ≥ n | none => false
+      let fail :=
+        if mustPanic then
+          (if fused == "panic" && sep == "panic" then none else some "flip-bounds:panic-expected")
+        else match parseArr? fused, parseArr? sep with
+          | some X, some S => firstFail [checkTer n X A B C (conn3 cn) fa fb fc fo,
+              if isCanon X then none else some "not-canonical",
+              if X == S then none else some "fused-vs-separate"]
+          | _, _ => some ("flip-bounds:unexpected-outcome:" ++ fused ++ "/" ++ sep)
+      { agree := model == fused, model, fail,
+        nontrivial := !mustPanic && (parseArr? fused).any (·.size > 2) && [fa, fb, fc, fo].any Option.isSome,
+        tags := ["ter", flipTag [fa, fb, fc, fo], if mustPanic then "panic" else "ok", s!"n{n}"] }
+    | _, _, _, _, _, _, _, _ => Verdict.bad "args"
+  | _, _, _ => Verdict.bad ("key " ++ key)
 
 end B.Drive.C04
